@@ -110,5 +110,8 @@ int main(void) {
   } else {
     VP_ASSERT(ecgroup[1] == 1 && ecgroup[ctrl.csize] == ctrl.csize, "every character its own class");
   }
+#ifdef VP_WITNESS
+  VP_ASSERT(!(lex && ctrl.yytext_is_array && ecs), "WITNESS: accepted lex-compat configuration");
+#endif
   return 0;
 }
